@@ -258,9 +258,16 @@ func c02worker(c *hx.Ctx) int {
 			}
 			if !valid && len(r.errs) == 0 {
 				t2 := time.Now()
-				sig, what := c02reduce(e)
+				sig, what := c02reduce(e, c.Expired)
 				rep.Inc("t_reduce_ms", time.Since(t2).Milliseconds())
 				rep.Inc("accepted_although_invalid", 1)
+				if sig == "" {
+					// the budget ran out in the middle of the reduction: without its minimal cause the
+					// document cannot be told from a known finding, so it is counted, not reported
+					rep.Inc("accepted_although_invalid_not_reduced", 1)
+					rep.Exhaustive = false
+					break
+				}
 				if !reported[sig] {
 					reported[sig] = true
 					rep.AddViolation(hx.Violation{Signature: sig, What: what,
@@ -280,9 +287,27 @@ func c02worker(c *hx.Ctx) int {
 // c02reduce turns "accepted although schema-invalid" into a C01-style minimal (schema, instance)
 // pair: the pair (Swagger 2.0 schema, raw document) is shrunk under the predicate "reference rejects,
 // one-shot schema validation with the Swagger options accepts".
-func c02reduce(e specEdit) (sig, what string) {
+type c02abort struct{}
+
+// c02reduced memoises, per worker process, the outcome of reducing one (flattened failing sub-schema,
+// sub-instance) candidate: many edited documents fail at the same leaf. The reduction is a
+// deterministic function of the candidate, so the memo changes nothing but the time.
+var c02reduced = map[string][2]string{}
+
+func c02reduce(e specEdit, stop func() bool) (sig, what string) {
+	defer func() {
+		if r := recover(); r != nil {
+			if _, ok := r.(c02abort); !ok {
+				panic(r)
+			}
+			sig, what = "", ""
+		}
+	}()
 	root, _ := swaggerSchemaRef()
 	pred := func(s map[string]any, i any) bool {
+		if stop() {
+			panic(c02abort{})
+		}
 		st, it := shrink.Text(s), shrink.Text(i)
 		want, ok := refVerdictNumber(st, it)
 		if !ok || want {
@@ -329,9 +354,20 @@ func c02reduce(e specEdit) (sig, what string) {
 				continue
 			}
 			tried[key] = true
-			if pred(flat, sub) {
-				return finish(flat, sub)
+			if hit, ok := c02reduced[key]; ok {
+				if hit[0] == "" {
+					continue
+				}
+				return hit[0] + " ⊢ " + hit[1], fmt.Sprintf("seed %s, edit %q is accepted although it violates the Swagger 2.0 schema; minimal cause: schema %s accepts %s", e.Seed, e.Desc, hit[0], hit[1])
 			}
+			if pred(flat, sub) {
+				sg, wh := finish(flat, sub)
+				if i := strings.Index(sg, " ⊢ "); i > 0 {
+					c02reduced[key] = [2]string{sg[:i], sg[i+len(" ⊢ "):]}
+				}
+				return sg, wh
+			}
+			c02reduced[key] = [2]string{"", ""}
 		}
 	}
 	// pass 2: the failing sub-schemas with the full definitions
